@@ -384,6 +384,11 @@ def build_cf2d(r: dict) -> Built:
             cs = [node(j, i), node(j, i + 1), node(j + 1, i + 1), node(j + 1, i)]
             if [j, i] in r.get('twist', []) or (j, i) in r.get('twist', []):
                 cs = [cs[0], cs[2], cs[1], cs[3]]     # bow-tie: self-intersecting stored corners
+            if r.get('grow'):
+                # optional key: the stored corners of every cell pushed outwards from the cell's centre by a half
+                # (exact: halves), so neighbouring cells overlap; the centres stay where they were
+                m = _mean(cs)
+                cs = [(m[0] + (x - m[0]) * F(3, 2), m[1] + (y - m[1]) * F(3, 2)) for x, y in cs]
             corners[j, i] = cs
             if (j, i) not in holes:
                 m = _mean(cs)
